@@ -221,13 +221,22 @@ theorem decodeItem_indexed (cap : Nat) (d : Dec) (idx : Nat) (h : Header) (rest 
   simp [decodeItem, hnot, hrepr, hd, hidx, hdl, h1, h2]
 
 
+theorem encStr_ne_nil (huff : Bool) (s : Bytes) : encStr huff s ≠ [] := by
+  unfold encStr
+  cases huff
+  · obtain ⟨b, tl, he, _⟩ := encInt_cons 7 0 s.length (by decide)
+    simp [he]
+  · obtain ⟨b, tl, he, _⟩ := encInt_cons 7 128 (huffEncode s).length (by decide)
+    simp [he]
+
 theorem decodeValue_encStr (cap : Nat) (d : Dec) (kind : Kind) (n v : Bytes) (hint : Nat)
     (huff : Bool) (rest : Bytes) (hfit : n.length + v.length < cap) (hcap : cap ≤ 2 ^ 28) :
     decodeValue cap d kind n hint (encStr huff v ++ rest) =
       .fld ⟨n, v, hint, decide (kind = .never)⟩ rest
         (if kind = .incr then d.push (n, v) hint else d) := by
   unfold decodeValue
-  rw [decStr_encStr (cap - n.length) huff v rest (by omega) (by omega)]
+  rw [if_neg (by simp [encStr_ne_nil]),
+    decStr_encStr (cap - n.length) huff v rest (by omega) (by omega)]
 
 /-- literal representation with indexed name -/
 theorem decodeItem_nameRef (cap : Nat) (d : Dec) (kind : Kind) (pbits flag idx : Nat)
@@ -266,14 +275,6 @@ theorem decodeItem_nameRef (cap : Nat) (d : Dec) (kind : Kind) (pbits flag idx :
   exact decodeValue_encStr cap d kind n v hint huff rest hfit hcap
 
 
-theorem encStr_ne_nil (huff : Bool) (s : Bytes) : encStr huff s ≠ [] := by
-  unfold encStr
-  cases huff
-  · obtain ⟨b, tl, he, _⟩ := encInt_cons 7 0 s.length (by decide)
-    simp [he]
-  · obtain ⟨b, tl, he, _⟩ := encInt_cons 7 128 (huffEncode s).length (by decide)
-    simp [he]
-
 /-- literal representation with literal name -/
 theorem decodeItem_literal (cap : Nat) (d : Dec) (kind : Kind) (flag : Nat)
     (n v : Bytes) (hn hv : Bool) (rest : Bytes) (hfl : flag < 256)
@@ -287,10 +288,9 @@ theorem decodeItem_literal (cap : Nat) (d : Dec) (kind : Kind) (flag : Nat)
   have hs := decStr_encStr cap hn n (encStr hv v ++ rest) (by omega) hcap
   have hne : encStr hn n ++ (encStr hv v ++ rest) ≠ [] := by
     simp [encStr_ne_nil]
-  have htrim : trimRight n = n := hok.no_trail
   have hnn : n ≠ [] := hok.name_ne
   simp only [List.cons_append, List.append_assoc, decodeItem, toUInt8_toNat_lt flag hfl, hrepr.1,
-    if_false, hrepr.2, hkind, hne, hs, htrim, hnn]
+    if_false, hrepr.2, hkind, hne, hs, hnn]
   exact decodeValue_encStr cap d kind n v 0 hv rest hfit hcap
 
 
@@ -505,10 +505,12 @@ theorem decodeValue_WF (cap : Nat) (d : Dec) (kind : Kind) (n : Bytes) (hint : N
   unfold decodeValue
   split
   · exact hwf
-  · simp only [ItemRes.dec]
-    split
-    · exact hwf.push _
+  · split
     · exact hwf
+    · simp only [ItemRes.dec]
+      split
+      · exact hwf.push _
+      · exact hwf
 
 theorem decodeItem_WF (cap : Nat) (d : Dec) (bs : Bytes) (hwf : d.tbl.WF) :
     (decodeItem cap d bs).dec.tbl.WF := by
